@@ -47,10 +47,15 @@ func vAssertPlacements(label string, c *Coordinator, S, K int, infos []*shardInf
 }
 
 // VRelief: phase lemma for alleviateShards from an arbitrary well-formed pre-state.
-func VRelief(S, K int) {
+// mode 1: no head-series limit (process-series relief only - which needs K >= 2 to move anything)
+// and every shard in sync.
+func VRelief(S, K, mode int) {
 	c := &Coordinator{option: vOption(), log: vLogger()}
 	zzv.Assume(!c.option.DisableAlleviate)
-	infos, pre := vShardInfos(S, K, false)
+	if mode == 1 {
+		zzv.Assume(c.option.MaxHeadSeries == 0)
+	}
+	infos, pre := vShardInfos(S, K, mode == 1)
 	head0, proc0 := make([]int64, S), make([]int64, S)
 	for i := range infos {
 		head0[i], proc0[i] = infos[i].runtime.HeadSeries, infos[i].runtime.ProcessSeries
